@@ -32,8 +32,10 @@ HEADER = "from simverif.userlib import lift2\n"
 # generator
 # =============================================================================
 class FDGen:
-    def __init__(self, tape, max_vars=5, max_support=6):
+    def __init__(self, tape, max_vars=5, max_support=6, req_range=(0, 3), param_max=3):
         self.t = tape
+        self.req_range = req_range
+        self.param_max = param_max
         self.nodes = []
         self.stmts = []
         self.names = {}  # name -> node id currently bound
@@ -169,7 +171,7 @@ class FDGen:
         self.mode2D = bool(t.chance(1, 4, "mode2D"))
         self.soft_probs = ["0.5"] if t.chance(2, 3, "soft.half_only") else ["0.25", "0.5", "0.75"]
         nvars = t.intrange(1, self.max_vars, "nvars")
-        nreq = t.intrange(0, 3, "nreq")
+        nreq = t.intrange(self.req_range[0], self.req_range[1], "nreq")
         nobj = t.intrange(0, 2, "nobj")
         # interleave definitions and requirements
         slots = ["let"] * nvars
@@ -182,7 +184,7 @@ class FDGen:
                 pass
             elif self.int_vars():
                 self.requirement()
-        nparam = t.intrange(0 if nobj else 1, 3, "nparam")
+        nparam = t.intrange(0 if nobj else 1, self.param_max, "nparam")
         for i in range(nparam):
             self.stmts.append(["param", f"p{i}", self.operand(allow_const=False)])
         for i in range(nobj):
